@@ -57,4 +57,21 @@ theorem foldl_min_mem (xs : List Int) (a : Int) : xs.foldl min a = a ∨ xs.fold
       · right; left; omega
     · right; right; exact h
 
+/-! ### `collections.defaultdict(list)` with natural-number keys and values: an association list in insertion order -/
+
+abbrev Groups := List (Nat × List Nat)
+
+/-- `d[k].append(v)` -/
+def groupAppend : Groups → Nat → Nat → Groups
+  | [], k, v => [(k, [v])]
+  | (k', vs) :: rest, k, v => if k' = k then (k', vs ++ [v]) :: rest else (k', vs) :: groupAppend rest k v
+
+/-- `list(d.keys())` -/
+def groupKeys (g : Groups) : List Nat := g.map (·.1)
+
+/-- `d[k]` (for a key that is present; `[]` otherwise — the translated code only asks for keys it took from `d`) -/
+def groupGet : Groups → Nat → List Nat
+  | [], _ => []
+  | (k', vs) :: rest, k => if k' = k then vs else groupGet rest k
+
 end Py
